@@ -200,6 +200,11 @@ type Conn struct {
 	// Jitter, when non-nil, is called at the start of every operation.
 	Jitter func()
 
+	// OnSend, when non-nil, is called (in the sender's goroutine) right before
+	// a packet is logged and delivered; probes use it to look at the state the
+	// sender is in at that very moment.
+	OnSend func(c *Conn, pkt packet.Generic)
+
 	recvMu sync.Mutex
 	sendMu sync.Mutex
 }
@@ -271,6 +276,9 @@ func (c *Conn) Send(pkt packet.Generic, _ bool) error {
 		c.Log.AddPkt(c.Name, "send-lost", pkt, "injected failure before the packet left")
 		_ = c.Close()
 		return ErrInjected
+	}
+	if c.OnSend != nil {
+		c.OnSend(c, pkt)
 	}
 	// log and deliver atomically with respect to the log order
 	c.Log.AddPkt(c.Name, "send", pkt, "")
